@@ -425,6 +425,16 @@ theorem entry_rejects_unknown_strategy :
   · intro y x cv sc
     apply finish_of_error; simp [rej, bind, Except.bind]
 
+/-- ... also when the name only reaches `evaluate` through a tuner (and a name is known only if it IS
+one of the documented names: the drivers compare whole strings, so a part of a name is unknown) -/
+theorem tuner_rejects_unknown_strategy (y : YDesc) (x : XKind) (cv : CvTok) (sc : ScoreTok) (g : GridTok) (fh : FhTok) :
+    Rejected (gridSearchEntry y x cv sc g fh false) := by
+  unfold gridSearchEntry
+  apply finish_of_error
+  cases checkYX y.kind x false with
+  | error e => rfl
+  | ok u => simp [rej, bind, Except.bind]
+
 /-- every ill-formed composite (duplicate or reserved names, `__` in a name, no list, empty list,
 non-forecaster members, all members dropped, wrong step types, unknown selection) is rejected at
 fit, for every composite kind, series and horizon -/
